@@ -143,17 +143,16 @@ theorem C09_fs_response_exact (d : Bytes) (t : FileStoreResponseTlv)
     PrefixOnly FileStoreResponseTlv.unpack d t t.packetLen :=
   prefixOnly_of (fsResponse_localAt hu hx)
 
-/-- **the uniform statement FAILS for the filestore classes on the unrepaired decoder** (negation of
-    "every accepted buffer is decoded identically from its first `packet_len` octets", with the
-    concrete witness): a request TLV declaring 12 octets whose value holds three octets after the
-    file name is accepted, reports 9, and its first 9 octets are refused. Once `from_tlv` refuses a
-    value field that does not end with the names (and, for responses, the message LV), the model
-    follows, this theorem disappears and `C09_fs_request_exact` becomes unconditional. -/
+/-- **the former slack witness is refused** (adapted by C08 after /repo commit d425927: `from_tlv`
+    refuses a value field that does not end with the names / the message LV, and the model follows).
+    The request TLV declaring 12 octets whose value holds three octets after the file name — which the
+    unrepaired decoder accepted while reporting 9 — is now a `ValueError`; every accepted filestore
+    TLV reports exactly the declared length (`Tlv.FileStoreRequestTlv.fromTlv_len_exact`,
+    `Tlv.FileStoreResponseTlv.fromTlv_len_exact`, `C08_fs_request_len_exact`), so the hypothesis
+    `hx` of `C09_fs_request_exact` / `C09_fs_response_exact` can be discharged unconditionally. -/
 theorem C09_fs_request_slack_witness :
-    ∃ d t, FileStoreRequestTlv.unpack d = .ok t ∧ t.packetLen < tlvDeclaredLen d ∧
-      FileStoreRequestTlv.unpack (d.take t.packetLen) = .error .value :=
-  ⟨[0, 10, 0, 5, 0x61, 0x2E, 0x74, 0x78, 0x74, 1, 2, 3], ⟨0, [0x61, 0x2E, 0x74, 0x78, 0x74], []⟩,
-    by decide, by decide, by decide⟩
+    FileStoreRequestTlv.unpack [0, 10, 0, 5, 0x61, 0x2E, 0x74, 0x78, 0x74, 1, 2, 3] = .error .value := by
+  decide
 
 /-- a packed filestore TLV (buffer length = reported length) reports the declared length -/
 theorem C09_fs_packed_exact (d : Bytes) :
@@ -365,10 +364,10 @@ example : Kind.tlv.decode [6, 2, 0xAB, 0xCD, 6, 0] = .ok (.tlv ⟨6, [0xAB, 0xCD
 -- a mixed buffer (TLV, LV, request id) with a tail is split by the reported lengths
 example : splitKinds [.tlv, .lv, .reqId] ([6, 2, 0xAB, 0xCD] ++ [3, 1, 2, 3] ++ [0x18, 0x2A, 0xC0, 0x07] ++ [0xFF]) =
     .ok ([.tlv ⟨6, [0xAB, 0xCD]⟩, .lv ⟨[1, 2, 3]⟩, .reqId ⟨0, ⟨1, 1, 0x2A⟩, ⟨3, 7⟩⟩], [0xFF]) := by decide
--- the filestore observation: a request whose value field holds three octets more than its names
--- is accepted, declares 12 octets and reports 9; its first 9 octets alone are refused
+-- the former filestore observation: a request whose value field holds three octets more than its
+-- names (declares 12 octets, names end after 9) is refused since the repair of `_set_fields`
 example : FileStoreRequestTlv.unpack [0, 10, 0, 5, 0x61, 0x2E, 0x74, 0x78, 0x74, 1, 2, 3] =
-    .ok ⟨0, [0x61, 0x2E, 0x74, 0x78, 0x74], []⟩ := by decide
+    .error .value := by decide
 example : (FileStoreRequestTlv.mk 0 [0x61, 0x2E, 0x74, 0x78, 0x74] []).packetLen = 9 ∧
     tlvDeclaredLen [0, 10, 0, 5, 0x61, 0x2E, 0x74, 0x78, 0x74, 1, 2, 3] = 12 := by decide
 example : FileStoreRequestTlv.unpack ([0, 10, 0, 5, 0x61, 0x2E, 0x74, 0x78, 0x74, 1, 2, 3].take 9) = .error .value := by
@@ -507,7 +506,7 @@ theorem C09_split_pdu (k : PduKind) (hk : k.acceptsTrailing = true) (units : Lis
     covers, followed by further octets, is dispatched to the same PDU or refused with a documented
     error -/
 theorem C09_factory_trailing (p : Factory.AnyPdu) (wf : C12.WFPdu p) (rest : Bytes) :
-    Factory.fromRaw (C12.Spec.octets p ++ rest) = .ok (some p) ∨
+    Factory.fromRaw (C12.Spec.octets p ++ rest) = Factory.fromRaw (C12.Spec.octets p) ∨
     ∃ e, Factory.fromRaw (C12.Spec.octets p ++ rest) = .error e ∧ e.documented = true :=
   C12.C12_dispatch_trailing p wf rest
 
